@@ -170,9 +170,12 @@ pub fn run_c04(ctx: &Ctx, rep: &mut Report) {
             // a spare DIFAT sector at the end of the chain: grow the file until a FAT sector
             // is appended (its DIFAT entry must go where its index says), then look at the
             // stored bytes
+            // (these images consist mostly of FREE sectors: all of them have to be used up
+            // before the FAT grows)
+            let fill_len = feat.total_sectors * 512 + 140_000;
             let r = guard::catch(|| -> Result<(), Fail> {
                 let mut sess = Session::open_bytes(bytes.clone(), Mode::Permissive, None, model.clone()).map_err(|e| ("open | rejected a valid layout".to_string(), format!("{e}")))?;
-                for st in [Step::HOpen { slot: 0, path: "/fill".into(), how: engine::OpenHow::Create }, Step::HWriteAll { slot: 0, len: 140_000 }, Step::HClose { slot: 0 }] {
+                for st in [Step::HOpen { slot: 0, path: "/fill".into(), how: engine::OpenHow::Create }, Step::HWriteAll { slot: 0, len: fill_len }, Step::HClose { slot: 0 }] {
                     if let Some(d) = sess.run(&st) {
                         return Err((d.signature.clone(), format!("growing a file with a spare DIFAT sector: {}: expected {}, observed {}", d.step, d.expected, d.observed)));
                     }
@@ -180,7 +183,7 @@ pub fn run_c04(ctx: &Ctx, rep: &mut Report) {
                 let exp = sess.model.dump();
                 let stored = sess.shared.bytes();
                 for mode in [Mode::Strict, Mode::Permissive] {
-                    let obs = engine::dump_bytes(&stored, mode).map_err(|w| (format!("after growth | reopen {:?} | open failed", mode), format!("file with a spare DIFAT sector, grown by 140000 bytes: {w}")))?;
+                    let obs = engine::dump_bytes(&stored, mode).map_err(|w| (format!("after growth | reopen {:?} | open failed", mode), format!("file with a spare DIFAT sector, grown by {fill_len} bytes: {w}")))?;
                     engine::dumps_match(&exp, &obs).map_err(|w| (format!("after growth | reopen {:?} | state differs", mode), w))?;
                 }
                 Ok(())
